@@ -1144,7 +1144,7 @@ func replayC15(c *run.Ctx, s *kit.Summary) {
 }
 
 func runC15(c *run.Ctx, s *kit.Summary) {
-	s.Rule = "rounds of 1..64 goroutines drawing concurrently (start barrier, all cores) from one targeter: static (1..20 targets, 1..60 draws each), JSON stream and http stream (0..200 targets written by the encoder / rendered, duplicates included, each caller draws until told ErrNoTargets three times); the model LTS is run under a random schedule and must produce the same multiset / counts; non-trivial = distinct round with >= 2 callers and >= 2 targets"
+	s.Rule = "rounds of 1..64 goroutines drawing concurrently (start barrier, all cores) from one targeter: static (1..20 targets, 1..60 draws each), JSON stream and http stream (0..200 targets written by the encoder / rendered, duplicates included, each caller draws until told ErrNoTargets three times); every static and stream round is run once more with the workers of a real Attacker.Attack as the callers (recording transport: the requests sent must be the targets, exactly once / in rotation, each with exactly its own header values and body); the real `vegeta attack -lazy` is run repeatedly against a counting server (per-target and default header checked per request); the model LTS is run under a random schedule and must produce the same multiset / counts; non-trivial = distinct round with >= 2 callers and >= 2 targets"
 	if c.Replay != "" {
 		replayC15(c, s)
 		return
